@@ -2,7 +2,7 @@ SPECIFICATION Spec
 CONSTANTS
   Record = TRUE
   Scripts <- ScriptsX
-  FaultChoices <- OneFault
+  FaultChoices <- ExpFaults
 CONSTRAINT ExportC
 INVARIANT EachOnce
 INVARIANT ReturnsAfterAll
